@@ -195,27 +195,31 @@ def run(ctx):
         ctx.transitions = max(ctx.transitions, 1)
         ctx.sample(lib.read_ndjson(ctx.replay)[-1])
         return ctx.finish(rule="replay of one recorded step")
-    K = 2
     workers = 4 if q else 8
-    # bounded-exhaustive passes: (alphabet, history length)
-    passes = [("full", 3), ("core", 4)] if q else [("full", 4), ("core", 5)]
-    cfg = "MC_VecAbstract" if q else "MC_VecAbstract_thorough"
-    alphas = {}
-    for sel, depth in passes:
+    # bounded-exhaustive passes: (name, alphabet, history length, configuration of MC_VecAbstract)
+    if q:
+        passes = [("full", "full", 3, "MC_VecAbstract"), ("core", "core", 4, "MC_VecAbstract")]
+    else:
+        passes = [("full", "full", 4, "MC_VecAbstract_thorough"), ("core", "core", 5, "MC_VecAbstract_thorough"),
+                  ("wide", "full", 3, "MC_VecAbstract_wide")]
+    alphas, blocks = {}, {}
+    for name, sel, depth, cfg in passes:
         # the alphabet of the pass: written by TLC from the same module (history length 0: no exploration)
-        alphas[sel] = os.path.join(ctx.work, "alphabet_%s.ndjson" % sel)
+        alphas[name] = os.path.join(ctx.work, "alphabet_%s.ndjson" % name)
         r0 = lib.tlc("MC_VecAbstract", cfg=cfg, workers=1, timeout=600, heap="2g",
-                     env={"ALPHABET_OUT": alphas[sel], "C11_SEL": sel, "C11_DEPTH": "0"})
-        if not r0.ok or not os.path.exists(alphas[sel]):
+                     env={"ALPHABET_OUT": alphas[name], "C11_SEL": sel, "C11_DEPTH": "0"})
+        if not r0.ok or not os.path.exists(alphas[name]):
             raise lib.ModelFailure("alphabet generation failed:\n" + r0.out[-2000:])
+        with open(os.path.join(lib.SPEC, cfg + ".cfg")) as f:
+            blocks[name] = int(re.search(r"\bK = (\d+)", f.read()).group(1))     # cells of the external block
 
     # 1. model checks of the specifications (in the background while the driver is built and run)
     def model_checks():
         res = []
         if os.environ.get("C11_SKIP_MC"):
             return res
-        for sel, depth in passes:
-            res.append(("MC_VecAbstract", "%s alphabet, histories <= %d" % (sel, depth),
+        for name, sel, depth, cfg in passes:
+            res.append(("MC_VecAbstract", "%s: %s alphabet, histories <= %d" % (cfg, sel, depth),
                         lib.tlc("MC_VecAbstract", cfg=cfg, workers=workers, timeout=2400, heap="6g",
                                 env={"C11_SEL": sel, "C11_DEPTH": str(depth)})))
         for mod in ("MC_VecImpl", "MC_ArrayND"):
@@ -231,8 +235,8 @@ def run(ctx):
     exe = os.environ.get("C11_DRIVER") or lib.build_driver("c11_arrays", san=True, extra=["-fwrapv"])
     futs = {}
     for ty in TYPES1:
-        for sel, depth in passes:
-            futs[("bfs", ty + "-" + sel)] = pool.submit(bfs_replay, ctx, exe, ty, sel, alphas[sel], depth, K, env)
+        for name, sel, depth, cfg in passes:
+            futs[("bfs", ty + "-" + name)] = pool.submit(bfs_replay, ctx, exe, ty, name, alphas[name], depth, blocks[name], env)
         futs[("rand", ty)] = pool.submit(rand_traces, ctx, exe, "rand", ty, 40 if q else 400, 400 if q else 1000, env)
     # multi-dimensional arrays: (dimension, sequences, length)
     for d, n, ln in ([(2, 6, 100), (3, 6, 100)] if q else [(2, 60, 300), (3, 60, 250), (4, 30, 150)]):
@@ -263,7 +267,8 @@ def run(ctx):
         for rec in recs[5:2000:400]:
             ctx.sample({k: rec.get(k) for k in ("e", "ty", "op", "err", "post")})
     ctx.extra["sanitizer_aborts"] = aborts
-    ctx.extra["passes"] = ["%s alphabet (%d operations), histories <= %d" % (sel, sum(1 for _ in open(alphas[sel])), d) for sel, d in passes]
+    ctx.extra["passes"] = ["%s: %s alphabet (%d operations, block of %d cells), histories <= %d" % (n, sel, sum(1 for _ in open(alphas[n])), blocks[n], d)
+                           for n, sel, d, c in passes]
     ctx.exhaustive = False
     ctx.assumptions = ["the observable fields of the two objects (index range, contents, capacity, capacity_min_index, ownership, "
                        "block cell) determine their future behaviour: a history is not extended when they were reached before",
